@@ -94,6 +94,7 @@ class Registry:
         self.lemmas: dict[str, Lemma] = {}
         self.axioms: list[tuple[str, str]] = []  # (name, clause) trusted axioms: listed in evidence
         self.records: dict = {}
+        self.funs: dict = {}  # callback name -> dict(args, ret, pure)
         self.recfns: dict = {}  # name -> dict(params, ret, on, base, step, group)
         self.deffns: dict = {}  # name -> (params, body, group, ret): defined (non-recursive) spec functions
         self.record_defaults: dict = {}
@@ -121,6 +122,14 @@ class Registry:
 
     def deffn(self, name, params, body, group="", ret="bool"):
         self.deffns[name] = (params, body, group, ret)
+
+    def callback(self, name, args, ret, pure=True):
+        """user callback: pure=True -> uninterpreted deterministic function (A4); pure=False -> havoc result"""
+        self.funs[name] = dict(args=args, ret=ret, pure=pure)
+
+    def record(self, name, fields, defaults=None):
+        self.records[name] = fields
+        self.record_defaults[name] = defaults or {}
 
     def recfn(self, name, params, ret, on, base, step, group=""):
         """recursive spec function over the integer parameter `on`: f = base if on <= 0 else step (step may call f at on-1)"""
